@@ -79,6 +79,15 @@ def run(ctx):
             if eo > 1e-10: viol(f'C06:orthonormal{tag}', f'Q^H Q != I (error {eo:.2e}) for a {m}x{n} {cls} matrix', inp, eo)
             if low > 1e-12 * sc: viol(f'C06:triangular{tag}', f'R is not upper triangular/trapezoidal (entry {low:.2e} below the diagonal)', inp, low)
             ctx.count(('qr', m, n, cls, [a.t() for row in A for a in row]), True, sample={'shape': [m, n], 'class': cls} if (m, n) == (2, 3) and cls == 'integer' else None)
+            if cls in ('integer', 'upper-triangular', 'pure-imaginary') and not tag:
+                for sname, scl in (('2^27', 2.0 ** 27), ('2^-40', 2.0 ** -40)):
+                    As = An * scl; nA = fro(As)
+                    try: Qs, Rs = qsvd.qr_qua(As)
+                    except Exception as e: viol('C06:scaled:raises', f'qr_qua raised {e!r} on a matrix scaled by {sname}', dict(inp, scale=sname)); continue
+                    if nA > 0 and fro(utils.quat_matmat(Qs, Rs) - As) > 1e-10 * nA: viol('C06:scaled:reconstruct', f'A != Q R for the matrix scaled by {sname}', dict(inp, scale=sname))
+                    if fro(utils.quat_matmat(utils.quat_hermitian(Qs), Qs) - utils.quat_eye(r)) > 1e-10: viol('C06:scaled:orthonormal', f'Q^H Q != I for the matrix scaled by {sname}', dict(inp, scale=sname))
+                    if max([abs(Rs[i, j]) for i in range(r) for j in range(n) if i > j] or [0.0]) > 1e-12 * max(nA, 1e-300): viol('C06:scaled:triangular', f'R not triangular for the matrix scaled by {sname}', dict(inp, scale=sname))
+                    ctx.count(('qr-scaled', m, n, cls, sname), True)
             if m >= n and len(rec) == 1:
                 Qr, Rr = rec[0]
                 terms.append(f'({m}%nat, {n}%nat, {tmat(Qr)}, {tmat(Rr)}, {tqmat(Qm)}, {tqmat(Rm)})')
